@@ -420,7 +420,9 @@ theorem npSetItem2_accPV {a : Acc} {v j : Nat} (hv : v < a.size) (hj : j < (a.ge
   have hr : (a.toList.map fun r => PV.arr (r.toList.map fun (x : Int) => PV.int x))[v]? =
       some (.arr ((a.getD v #[]).toList.map fun (x : Int) => PV.int x)) := by
     simp [Array.getD_eq_getD_getElem?, hv]
-  rw [accPV, GzTie.npSetItem2_nat hr (by simpa using hj)]
+  have hk : ((a.getD v #[]).toList.map fun (x : Int) => PV.int x)[j]? = some (.int ((a.getD v #[])[j]'hj)) := by
+    simp
+  rw [accPV, GzTie.npSetItem2_nat hr hk]
   simp only [accPV, Acc.setEnt, Array.toList_setIfInBounds, List.map_set]
 
 theorem accPV_init (n : Nat) :
